@@ -120,7 +120,7 @@ def main(pid, tier, seed):
     work = core.scratch('honey')
     wtraces, etraces, meta, strings = [], [], {}, []
     tid = 0
-    n_rules = 6 if tier == 'quick' else 60
+    n_rules = 6 if tier == 'quick' else 200
     cli_dirs = []
     for k in range(n_rules):
         d = os.path.join(work, 'r%d' % k)
